@@ -683,8 +683,70 @@ def rand_user_vlr(rng):
             hx(bytes(rng.getrandbits(8) for _ in range(n)))]
 
 
-def rand_other_seg(rng, reserved, part="all", ndims=None, eb_first=None):
+TWIN_KINDS = ["scale", "offset", "desc", "all", "scaledness", "same", "one_element"]
+
+
+def twin_dim(rng, d, kind=None):
+    """round 7: a dimension of the same name and the same element type as d that ANOTHER file describes in its own way: other
+    scales, other offsets, another description, everything different, scaled where d is not (or the reverse), or exactly the same"""
+    t = tuple(d["type"])
+    kind = kind or rng.choice(TWIN_KINDS)
+    tw = {"name": d["name"], "type": list(d["type"]), "scale": None if d["scale"] is None else [list(d["scale"][0]), list(d["scale"][1])], "desc": d["desc"]}
+    if t[0] == "o" and kind != "same":
+        kind = "desc"          # an opaque array has nothing else
+    n = type_elems(t)
+
+    def other_of(pool, bits):
+        return rng.choice([lasio.f64bits(x) for x in pool if lasio.f64bits(x) != bits])
+
+    if kind == "scaledness" or (kind in ("scale", "offset", "one_element") and tw["scale"] is None):
+        if tw["scale"] is None:
+            tw["scale"] = [[lasio.f64bits(rng.choice(SCALES)) for _ in range(n)], [lasio.f64bits(rng.choice(OFFSETS)) for _ in range(n)]]
+        else:
+            tw["scale"] = None
+    elif kind == "scale":
+        tw["scale"][0] = [other_of(SCALES, b) for b in tw["scale"][0]]
+    elif kind == "offset":
+        tw["scale"][1] = [other_of(OFFSETS, b) for b in tw["scale"][1]]
+    elif kind == "one_element":       # only the last element's scale (or offset) differs
+        w = rng.randrange(2)
+        tw["scale"][w][-1] = other_of([SCALES, OFFSETS][w], tw["scale"][w][-1])
+    if kind in ("desc", "all"):
+        old = bytes.fromhex(d["desc"]).decode()
+        for _ in range(50):
+            dl = rng.choice([0, 1, 5, 31, 32, rng.randrange(33)])
+            desc = rand_text(rng, dl, loose=True) if dl else ""
+            if desc != old:
+                break
+        tw["desc"] = hx(desc.encode())
+    if kind == "all" and tw["scale"] is not None:
+        tw["scale"] = [[other_of(SCALES, b) for b in tw["scale"][0]], [other_of(OFFSETS, b) for b in tw["scale"][1]]]
+    return tw
+
+
+def rand_other_seg(rng, reserved, part="all", ndims=None, eb_first=None, twins_of=None, twin_kind=None, layout=None):
+    """the LasData the caller takes VLRs from.  twins_of (round 7): the current extra dimensions of the LasData under test — the other
+    file then has dimensions of the SAME name and type described differently (twin_dim): `layout` = "same" (the same dimensions in
+    the same order, each a twin), "some" (some of them, maybe in another order, next to dimensions of its own), "one" (one twin)"""
     used, dims = set(), []
+    if twins_of:
+        layout = layout or rng.choice(["same", "same", "some", "one"])
+        if layout == "same":
+            dims = [twin_dim(rng, d, twin_kind) for d in twins_of]
+            if twin_kind is None and len(dims) > 1 and rng.random() < 0.5:      # only one of them differs
+                keep = rng.randrange(len(dims))
+                dims = [tw if i == keep else twin_dim(rng, d, "same") for i, (tw, d) in enumerate(zip(dims, twins_of))]
+        else:
+            pick = rng.sample(twins_of, 1 if layout == "one" else rng.randrange(1, len(twins_of) + 1))
+            used = {bytes.fromhex(d["name"]).decode() for d in twins_of}
+            for d in pick:
+                if layout == "some" and rng.random() < 0.4:
+                    o = rand_dim(rng, used, reserved)
+                    used.add(bytes.fromhex(o["name"]).decode())
+                    dims.append(o)
+                dims.append(twin_dim(rng, d, twin_kind))
+        return {"seg": "other", "dims": dims, "twins": layout, "users": [rand_user_vlr(rng) for _ in range(rng.choice([0, 1, 1, 2]))] if part == "all" else [],
+                "eb_first": rng.random() < 0.6 if eb_first is None else eb_first, "via": rng.choice(["memory", "memory", "file"]), "part": part}
     for _ in range(rng.choice([1, 1, 2, 3]) if ndims is None else ndims):
         d = rand_dim(rng, used, reserved)
         used.add(bytes.fromhex(d["name"]).decode())
@@ -693,12 +755,34 @@ def rand_other_seg(rng, reserved, part="all", ndims=None, eb_first=None):
             "eb_first": rng.random() < 0.6 if eb_first is None else eb_first, "via": rng.choice(["memory", "memory", "file"]), "part": part}
 
 
-def rand_edit_vlrs(rng, reserved, flavour=None, install=None):
+TWIN_FLAVOURS = ["take_over", "take_over", "twin_after", "twin_before", "twin_eb_only", "twin_eb_alone"]
+TAKE_OVER_INSTALLS = ["slice", "setter_list", "setter_tuple", "setter_iter", "setter_vlrlist", "header_setter", "setter_donor_list", "header_setter_donor_list"]
+
+
+def rand_edit_vlrs(rng, reserved, flavour=None, install=None, shadow=None, twin_kind=None, layout=None):
     """the caller edits las.vlrs between two operations of the history (JSON-able: segments the new list is made of + how it is
-    installed)"""
-    flavour = flavour or rng.choice(EDIT_FLAVOURS)
+    installed).  shadow: the current extra dimensions; the round-7 flavours (TWIN_FLAVOURS) need some: the VLRs of ANOTHER file that
+    has dimensions of the same names and types with its own scales / offsets / descriptions are taken over (`b.vlrs = a.vlrs`: the
+    whole list replaces the own one, through a setter — the donor's very list object included — or in place) or put next to the own
+    records"""
+    if flavour is None:
+        flavour = rng.choice(TWIN_FLAVOURS) if shadow and rng.random() < 0.4 else rng.choice(EDIT_FLAVOURS)
+    if flavour in TWIN_FLAVOURS and not shadow:
+        flavour = "foreign_after"
     cur = {"seg": "cur"}
-    if flavour == "foreign_after":
+    if flavour == "take_over":
+        segs, inst = [rand_other_seg(rng, reserved, twins_of=shadow, twin_kind=twin_kind, layout=layout)], TAKE_OVER_INSTALLS
+    elif flavour == "twin_after":
+        segs, inst = [cur, rand_other_seg(rng, reserved, twins_of=shadow, twin_kind=twin_kind, layout=layout)], ["extend", "append", "iadd_inplace", "slice"] + SETTER_INSTALLS
+    elif flavour == "twin_before":
+        segs = [rand_other_seg(rng, reserved, twins_of=shadow, twin_kind=twin_kind, layout=layout), cur]
+        inst = ["insert_front", "slice", "setter_list", "setter_tuple", "setter_iter", "setter_vlrlist", "header_setter"]
+    elif flavour == "twin_eb_only":
+        segs, inst = [cur, rand_other_seg(rng, reserved, part="eb", twins_of=shadow, twin_kind=twin_kind, layout=layout)], ["extend", "append", "slice"] + SETTER_INSTALLS
+    elif flavour == "twin_eb_alone":         # the own extra-bytes VLR is replaced by the other file's
+        segs = [{"seg": "cur_no_eb"}, rand_other_seg(rng, reserved, part="eb", twins_of=shadow, twin_kind=twin_kind, layout=layout)]
+        inst = ["slice", "setter_list", "setter_tuple", "setter_vlrlist", "header_setter"]
+    elif flavour == "foreign_after":
         segs, inst = [cur, rand_other_seg(rng, reserved)], ["extend", "extend", "append", "iadd_inplace", "slice"] + SETTER_INSTALLS
     elif flavour == "foreign_before":
         segs, inst = [rand_other_seg(rng, reserved), cur], ["insert_front", "slice", "setter_list", "setter_tuple", "setter_iter", "setter_vlrlist", "header_setter"]
@@ -735,7 +819,11 @@ def rand_sync_op(rng, shadow, reserved):
     return {"op": "add", "dims": [rand_dim(rng, used, reserved)], "single": rng.random() < 0.5}
 
 
-def gen_history(rng, reserved, fmt=None, steps=None, npts=None, plan=None, build=None, init=None, sibling=None, sib_ops=None, init_dims=None):
+REFMT_BUILDS = ("header_refmt", "header_setver", "create_refmt")     # round 7: the header had ANOTHER PointFormat first (h["prior_dims"])
+
+
+def gen_history(rng, reserved, fmt=None, steps=None, npts=None, plan=None, build=None, init=None, sibling=None, sib_ops=None, init_dims=None,
+                prior_kind=None, prior_layout=None):
     """a history: how the LasData is built (header parameters, the extra dimensions its PointFormat carries from the start, the bytes
     of its points, VLRs and how they are installed, an optional sibling LasData built the same way), and up to 12 operations ending
     with a round trip.  `plan` (optional) is a list of forced first operations given as callables(shadow, current number of points) -> op."""
@@ -745,11 +833,13 @@ def gen_history(rng, reserved, fmt=None, steps=None, npts=None, plan=None, build
         build = rng.choice(BUILDS)
         if fmt == 3 and rng.random() < 0.5:
             build = rng.choice(["default_create", "default_header"])
+        elif rng.random() < 0.08:
+            build = rng.choice(REFMT_BUILDS)
     if build.startswith("default"):
         fmt, ver = 3, "1.2"
     npts = rng.choice([0, 1, 2, 3, 5, 17]) if npts is None else npts
     shadow = []      # current extra dimensions as the property expects them
-    if build in ("header_fmt", "create_fmt"):
+    if build in ("header_fmt", "create_fmt") + REFMT_BUILDS:
         used = set()
         for _ in range(rng.choice([0, 1, 1, 2, 3]) if init is None else init):
             d = rand_dim(rng, used, reserved)
@@ -773,7 +863,13 @@ def gen_history(rng, reserved, fmt=None, steps=None, npts=None, plan=None, build
         sib = {"when": sibling, "ops": sops if sibling == "older" else []}
         for o in sib["ops"]:
             retired.extend((d["name"], tuple(d["type"])) for d in o.get("dims", []))
-    h = {"version": ver, "fmt": fmt, "npts": npts, "build": build, "init_dims": [dict(d) for d in shadow],
+    prior = None
+    if build in REFMT_BUILDS:
+        # the PointFormat the header was made with and that header.point_format = .. / set_version_and_point_format replaced: mostly
+        # dimensions of the same names and types described differently (twin_dim)
+        prior = rand_other_seg(rng, reserved, twins_of=shadow, twin_kind=prior_kind, layout=prior_layout)["dims"] if shadow and rng.random() < 0.85 \
+            else rand_other_seg(rng, reserved)["dims"]
+    h = {"version": ver, "fmt": fmt, "npts": npts, "build": build, "init_dims": [dict(d) for d in shadow], "prior_dims": prior,
          "raw": hx(rand_records(rng, fmt, shadow, npts)), "vlrs": rand_vlrs(rng), "vlr_install": rng.choice(["append", "append", "setter"]),
          "sibling": sib, "ops": [],
          "own_format": rng.random() < 0.5}      # LasData(header, record) with a record that carries its own PointFormat object
@@ -823,7 +919,7 @@ def gen_history(rng, reserved, fmt=None, steps=None, npts=None, plan=None, build
             elif k0 < 0.32:
                 op = rand_fork(rng, cur)
             elif k0 < 0.38:
-                op = rand_edit_vlrs(rng, reserved)
+                op = rand_edit_vlrs(rng, reserved, shadow=shadow)
             elif k0 < 0.42 and last_kept is not None:
                 op = {"op": "caller", "what": rng.choice(CALLER_WHATS)}
             elif k < 0.36 or (not shadow and k < 0.7):
@@ -968,8 +1064,25 @@ def make_las(h, sibling=False):
             pf.add_extra_dimension(mk_param(d))
         return pf
 
+    def prior_format():
+        pf = laspy.PointFormat(fmt)
+        for d in h.get("prior_dims") or []:
+            pf.add_extra_dimension(mk_param(d))
+        return pf
+
     if build == "header_record":
         hdr = laspy.LasHeader(version=ver, point_format=fmt)
+    elif build == "header_refmt":
+        hdr = laspy.LasHeader(version=ver, point_format=prior_format())
+        hdr.point_format = point_format()
+    elif build == "header_setver":
+        from laspy.header import Version
+        hdr = laspy.LasHeader(version=ver, point_format=prior_format())
+        hdr.set_version_and_point_format(Version.from_str(ver), point_format())
+    elif build == "create_refmt":
+        las = laspy.create(point_format=prior_format(), file_version=ver)
+        las.header.point_format = point_format()
+        las = laspy.LasData(las.header)
     elif build == "header_fmt":
         hdr = laspy.LasHeader(version=ver, point_format=point_format())
     elif build == "default_header":
@@ -985,7 +1098,7 @@ def make_las(h, sibling=False):
     vlrs = [] if sibling else [laspy.VLR(user_id=bytes.fromhex(u).decode(), record_id=r, description=bytes.fromhex(d).decode(), record_data=bytes.fromhex(p))
                                for u, r, d, p in h["vlrs"]]
     npts = 1 if sibling else h["npts"]
-    if build in ("header_record", "header_fmt", "default_header"):
+    if build in ("header_record", "header_fmt", "default_header", "header_refmt", "header_setver"):
         if h.get("vlr_install") == "setter":
             hdr.vlrs = vlrs
         else:
@@ -1508,6 +1621,7 @@ def other_with_vlrs(las, seg):
 
 INPLACE_INSTALLS = ["extend", "append", "iadd_inplace", "insert_front", "slice", "reverse", "pop_eb", "extract_eb", "clear"]
 SETTER_INSTALLS = ["setter_list", "setter_tuple", "setter_iter", "setter_vlrlist", "setter_iadd", "header_setter"]
+DONOR_INSTALLS = ["setter_donor_list", "header_setter_donor_list"]       # round 7: `b.vlrs = a.vlrs`, the donor's own list object is handed over
 
 
 def apply_edit_vlrs(las, op, aux, wit):
@@ -1520,6 +1634,7 @@ def apply_edit_vlrs(las, op, aux, wit):
     from laspy.vlrs.vlrlist import VLRList
     cur = list(las.vlrs)
     new = []
+    donor = None
     for seg in op["segs"]:
         kind = seg["seg"]
         if kind == "cur":
@@ -1538,6 +1653,7 @@ def apply_edit_vlrs(las, op, aux, wit):
         elif kind == "other":
             other = other_with_vlrs(las, seg)
             wit.append(("the LasData whose VLRs were copied", other, "vlr_donor"))
+            donor = other
             new += [v for v in other.vlrs if seg.get("part", "all") == "all" or is_eb_obj(v)]
         else:
             raise ValueError("unknown segment " + kind)
@@ -1584,6 +1700,13 @@ def apply_edit_vlrs(las, op, aux, wit):
         las.vlrs += tail
     elif inst == "header_setter":
         las.header.vlrs = list(new)
+    elif inst in DONOR_INSTALLS:
+        if donor is None or len(op["segs"]) != 1 or not (len(new) == len(donor.vlrs) and all(a is b_ for a, b_ in zip(new, donor.vlrs))):
+            raise RuntimeError("harness: the new list is not the whole list of the donor")
+        if inst == "setter_donor_list":
+            las.vlrs = donor.vlrs
+        else:
+            las.header.vlrs = donor.header.vlrs
     else:
         raise ValueError("unknown install " + inst)
     if inst in INPLACE_INSTALLS and not (len(las.vlrs) == len(new) and all(a is b_ for a, b_ in zip(las.vlrs, new))):
@@ -2435,7 +2558,9 @@ def oracle_witnesses(h, snaps, track, labels, witnesses):
                     break
                 if j == b:
                     if role == "vlr_donor":
-                        bad = None
+                        # round 7: the LasData the VLRs were taken from stays what it was made as (one donor: its dimensions are known)
+                        others = [sg for sg in op["segs"] if sg["seg"] == "other"]
+                        bad = check_state([dict(d) for d in others[0]["dims"]], sn, wfmt, None) if len(others) == 1 else None
                     elif role == "donor":
                         bad = check_state(wsh, sn, wfmt, wreg) or (("record bytes", "the record does not hold the assigned bytes") if sn["bytes"] != bytes.fromhex(op["raw"]) else None)
                     elif exp is None:      # a selection
@@ -2696,6 +2821,84 @@ def systematic(ctx, reserved):
     hs.extend(systematic4(ctx, reserved))
     hs.extend(systematic5(ctx, reserved))
     hs.extend(systematic6(ctx, reserved))
+    hs.extend(systematic7(ctx, reserved))
+    return hs
+
+
+def systematic7(ctx, reserved):
+    """round 7 — the VLRs of ANOTHER file are taken over by a LasData that has extra dimensions of the same names and types: every
+    way the other file may describe them differently (TWIN_KINDS: scales, offsets, the last element only, description, everything,
+    scaled vs not, identical) x every flavour (whole list replaces the own one; after / before the own records; its extra-bytes VLR
+    alone, next to or instead of the own one) x every install of the flavour (in place, setter forms, the donor's own list object)
+    x the history that follows (assign, add, remove another one, round trip; remove the twin; remove all): the extra-bytes VLR has to
+    describe the CURRENT dimensions after every step and in the written file"""
+    rng = ctx.rng
+    hs = []
+    flavour_installs = {
+        "take_over": TAKE_OVER_INSTALLS,
+        "twin_after": ["extend", "append", "iadd_inplace", "slice"] + SETTER_INSTALLS,
+        "twin_before": ["insert_front", "slice", "setter_list", "setter_tuple", "setter_iter", "setter_vlrlist", "header_setter"],
+        "twin_eb_only": ["extend", "append", "slice"] + SETTER_INSTALLS,
+        "twin_eb_alone": ["slice", "setter_list", "setter_tuple", "setter_vlrlist", "header_setter"],
+    }
+
+    def add_dims(elems, scaled):
+        def f(shadow, cur):
+            used = {bytes.fromhex(d["name"]).decode() for d in shadow}
+            ds = []
+            for e, sc in zip(elems, scaled):
+                t = ("o", rng.choice(OPAQUE_SIZES)) if e == 0 else ("s", rng.randrange(1, 11) + 10 * (e - 1))
+                d = rand_dim(rng, used, reserved, t=t, scaled=sc)
+                used.add(bytes.fromhex(d["name"]).decode())
+                ds.append(d)
+            return {"op": "add", "dims": ds, "single": False}
+        return f
+
+    def asg(which=-1):
+        return lambda s, c: assign_op(rng, s[which % len(s)], c) if s else None
+
+    def add1(shadow, cur):
+        used = {bytes.fromhex(d["name"]).decode() for d in shadow}
+        return {"op": "add", "dims": [rand_dim(rng, used, reserved)], "single": True}
+
+    def rem(which):
+        def f(shadow, cur):
+            if not shadow:
+                return None
+            names = [d["name"] for d in shadow] if which == "all" else [shadow[which % len(shadow)]["name"]]
+            return {"op": "remove", "names": names, "single": which != "all" and len(names) == 1, "as": "list"}
+        return f
+
+    def rt(via="write"):
+        return lambda s, c: {"op": "roundtrip", "via": via}
+
+    j = 0
+    layouts = ["same", "some", "one"]
+    for flavour, installs in flavour_installs.items():
+        for inst in installs:
+            kinds = TWIN_KINDS if ctx.n(0, 1) or flavour == "take_over" else [TWIN_KINDS[(j + i) % len(TWIN_KINDS)] for i in range(2)]
+            for kind in kinds:
+                j += 1
+                layout = layouts[j % 3]
+
+                def edit(shadow, cur, flavour=flavour, inst=inst, kind=kind, layout=layout):
+                    return rand_edit_vlrs(rng, reserved, flavour=flavour, install=inst, shadow=shadow, twin_kind=kind, layout=layout)
+
+                follow = [[asg(0), add1, rem(1), rt("write")], [rem(0), asg(0), rt("writer")], [add1, asg(0), rem("all"), add1],
+                          [rem(-1), add1, asg(1), rt("write")]][j % 4]
+                # three dimensions: a scaled one of 1..3 elements, an unscaled or opaque one, a scaled one
+                plan = [add_dims([1 + j % 3, [1, 0, 2][j % 3], 1 + (j // 3) % 3], [True, False, True]), asg(0), asg(2), edit] + follow
+                hs.append(gen_history(rng, reserved, fmt=j % 11, steps=len(plan), npts=[2, 3, 1][j % 3], plan=plan, init=0,
+                                      build=BUILDS[j % len(BUILDS)], sibling=False))
+    # the header was made with a PointFormat whose dimensions have the same names and types, then given the PointFormat of the history
+    # (header.point_format = .. / set_version_and_point_format / through laspy.create): every way the first one may differ
+    for build in REFMT_BUILDS:
+        for kind in TWIN_KINDS:
+            for init in (1, 3):
+                j += 1
+                follow = [[asg(0), add1, rem(0), rt("write")], [rem(0), add1, rt("writer")], [add1, asg(0), rem("all"), add1], [rt("write"), rem(-1), add1, asg(0)]][j % 4]
+                hs.append(gen_history(rng, reserved, fmt=j % 11, steps=len(follow), npts=[2, 3, 1, 0][j % 4], plan=list(follow), init=init, build=build,
+                                      sibling=[False, False, "younger"][j % 3], prior_kind=kind, prior_layout=layouts[j % 3]))
     return hs
 
 
@@ -3287,6 +3490,15 @@ def correspond(ctx):
         "whole-record assignment, remove, refused removal; the name carried by the PointFormat from the start (create / header). The "
         "model's dimension list (dim_names: standard dimensions of the format id, then the extra ones) is compared with "
         "point_format.dimension_names after every step; rec_names / sub_names / std_dim_names of the model vs laspy's tables per format. "
+        "Round 7: the VLRs of ANOTHER file that has extra dimensions of the SAME names and types, described in its own way (other "
+        "scales / offsets / last element only / description / everything / scaled vs not / identical; the same layout, some of the "
+        "dimensions, one), are taken over — the whole list replaces the own one (`b.vlrs = a.vlrs`: the donor's own list object, a list, "
+        "tuple, iterator, VLRList copy, header.vlrs, las.vlrs[:] = ..) or its records / its extra-bytes VLR come after, before or instead "
+        "of the own one (40% of the VLR edits when there are dimensions); the donor must stay as it was made. 8% of the constructions "
+        "give the header ANOTHER PointFormat first (such twins) and then the one of the history through header.point_format = .., "
+        "set_version_and_point_format or laspy.create + setter. The extra-bytes VLR is judged against the CURRENT dimensions (name, type, "
+        "scales, offsets, description) after every later step and in every written file. Systematic: 5 flavours x their installs (39) x "
+        "2..7 ways of differing x 4 follow-ups; 3 re-format builds x 7 ways x {1, 3} dimensions. "
         "Search also: 240 + 18 systematic and 300 (3000) random 192-byte descriptors read by laspy vs the specification's reading. "
         "After the construction and after every step point format, VLR payloads, all record "
         "bytes and the raw values of each extra dimension are compared with the model (the standard block a conversion produces is taken "
